@@ -3,6 +3,7 @@ package walletrestart
 import (
 	"fmt"
 	"math/rand"
+	"sync"
 
 	"verifharness/core"
 )
@@ -21,6 +22,8 @@ type shadow struct {
 	locked   bool
 	full     bool // cmp after every request
 	ended    bool // no further requests (the case ran into a known finding whose consequences are open-ended)
+	priv     int  // private / public passphrase the generator believes current (only to aim the requests)
+	pub      int
 	tags     map[string]bool
 }
 
@@ -30,8 +33,39 @@ func newShadow(rng *rand.Rand, full bool) *shadow {
 		s.keyUsed[i] = map[int]bool{}
 		s.dryKey[i] = map[int]bool{}
 	}
-	s.ops = []string{"reset"}
+	s.ops = []string{resetOp()}
 	return s
+}
+
+// probePubFix runs, once per process, the failing combined passphrase change (public half right, private half wrong)
+// on a throw-away wallet and asks whether the running wallet still accepts the OLD public passphrase: false on a tree
+// where the handler leaves the new public master key in memory after the rollback (the unchanged tree), true with
+// repo-patches/fix-C05-changepassphrases-public-half-rollback.diff.  Only selects the model variant (`reset pf=1`).
+var (
+	pubFixOnce sync.Once
+	pubFix     bool
+)
+
+func probePubFix() bool {
+	pubFixOnce.Do(func() {
+		r := &runner{}
+		defer r.Close()
+		if err := r.reset(); err != nil {
+			return
+		}
+		if err := r.w.ChangePassphrases(pubPassOf(0), pubPassOf(1), privPassOf(3), privPassOf(2)); err == nil {
+			return
+		}
+		pubFix = r.w.ChangePublicPassphrase(pubPassOf(0), pubPassOf(0)) == nil
+	})
+	return pubFix
+}
+
+func resetOp() string {
+	if probePubFix() {
+		return "reset pf=1"
+	}
+	return "reset"
 }
 
 func (s *shadow) add(op string) {
@@ -167,7 +201,7 @@ func (s *shadow) fundedAcct() (int, int, bool) {
 func (s *shadow) randomOp() {
 	rng := s.rng
 	sc := s.sc()
-	switch k := rng.Intn(100); {
+	switch k := rng.Intn(105); {
 	case k < 10:
 		if rng.Intn(5) == 0 {
 			s.addThenCmp(fmt.Sprintf("newaddr sc=%s a=%d cf=1", scopes[sc].name, s.acct(sc)))
@@ -244,7 +278,7 @@ func (s *shadow) randomOp() {
 			s.nameUsed[n] = true
 			s.last[sc]++
 		}
-	case k < 97:
+	case k < 96:
 		if s.locked {
 			s.add("unlock")
 		} else {
@@ -252,7 +286,96 @@ func (s *shadow) randomOp() {
 		}
 		s.locked = !s.locked
 		s.tags["lock"] = true
+	case k < 97:
+		s.add("unlock")
+		s.locked = false
+	case k < 98:
+		s.add("restart")
+		s.locked = true
+		s.tags["restart"] = true
 	default:
+		s.passOp()
+	}
+}
+
+// otherThan: a passphrase id below n different from x
+func (s *shadow) otherThan(n, x int) int { return (x + 1 + s.rng.Intn(n-1)) % n }
+
+// passOp: one passphrase request (right / wrong old passphrases), followed by Unlock probes
+func (s *shadow) passOp() {
+	rng := s.rng
+	s.tags["passphrase"] = true
+	switch k := rng.Intn(10); {
+	case k < 3: // ChangePrivatePassphrase
+		old, nw := s.priv, rng.Intn(nPrivPass)
+		if rng.Intn(3) == 0 {
+			old = s.otherThan(nPrivPass, s.priv)
+		}
+		s.ops = append(s.ops, fmt.Sprintf("chpriv old=%d new=%d", old, nw))
+		if old == s.priv {
+			s.priv = nw
+		}
+		s.probes()
+	case k < 4: // ChangePublicPassphrase
+		old, nw := s.pub, rng.Intn(nPubPass)
+		if rng.Intn(3) == 0 {
+			old = s.otherThan(nPubPass, s.pub)
+		}
+		s.add(fmt.Sprintf("chpub old=%d new=%d", old, nw))
+		if old == s.pub {
+			s.pub = nw
+		}
+	case k < 8: // ChangePassphrases: both right / public wrong / private wrong / both wrong
+		po, vo := s.pub, s.priv
+		pn, vn := rng.Intn(nPubPass), rng.Intn(nPrivPass)
+		switch rng.Intn(5) {
+		case 0, 1:
+			po = s.otherThan(nPubPass, s.pub)
+			if vn == s.priv {
+				vn = s.otherThan(nPrivPass, s.priv)
+			}
+		case 2:
+			vo = s.otherThan(nPrivPass, s.priv)
+		case 3:
+			if rng.Intn(2) == 0 {
+				po, vo = s.otherThan(nPubPass, s.pub), s.otherThan(nPrivPass, s.priv)
+			}
+		}
+		s.ops = append(s.ops, fmt.Sprintf("chboth pubold=%d pubnew=%d privold=%d privnew=%d", po, pn, vo, vn))
+		if po == s.pub && vo == s.priv {
+			s.pub, s.priv = pn, vn
+		} else if po == s.pub {
+			// the unchanged code keeps the NEW public passphrase in memory after the private half failed (reported
+			// finding); the generator does not follow it: later public changes then simply hit the error path
+		}
+		s.probes()
+	default:
+		s.probes()
+	}
+}
+
+// probes: Unlock with the current / a previous / a never-set passphrase after a passphrase request
+func (s *shadow) probes() {
+	rng := s.rng
+	if rng.Intn(2) == 0 {
+		s.add("passprobe")
+		return
+	}
+	switch k := rng.Intn(6); {
+	case k < 2 && !s.locked:
+		s.ops = append(s.ops, "lock")
+		s.locked = true
+	case k == 2:
+		s.ops = append(s.ops, "restart")
+		s.locked = true
+		s.tags["restart"] = true
+	}
+	for i := 1 + rng.Intn(3); i > 0; i-- {
+		id := rng.Intn(nPrivPass)
+		s.ops = append(s.ops, fmt.Sprintf("unlock pass=%d", id))
+		s.locked = id != s.priv
+	}
+	if rng.Intn(3) > 0 {
 		s.add("unlock")
 		s.locked = false
 	}
@@ -350,6 +473,71 @@ func (s *shadow) scenario(k int) {
 		s.addThenCmp(fmt.Sprintf("rename sc=%s a=%d name=%d cf=1", scopes[sc].name, a, s.freshName()))
 		s.tags["commit-failed-eager"] = true
 		s.ended = true
+	case 9: // C05: a REFUSED combined change (one half wrong) must leave the private passphrase as it was - at once
+		// (locked and unlocked wallet) and after restart
+		if rng.Intn(2) == 0 {
+			nw := 1 + rng.Intn(nPrivPass-1)
+			s.ops = append(s.ops, fmt.Sprintf("chpriv old=0 new=%d", nw))
+			s.priv = nw
+		}
+		if rng.Intn(2) == 0 {
+			s.ops = append(s.ops, "lock")
+			s.locked = true
+		}
+		vn := s.otherThan(nPrivPass, s.priv)
+		if rng.Intn(4) > 0 {
+			// wrong old PUBLIC passphrase, right old private one
+			s.ops = append(s.ops, fmt.Sprintf("chboth pubold=%d pubnew=%d privold=%d privnew=%d",
+				s.otherThan(nPubPass, s.pub), rng.Intn(nPubPass), s.priv, vn))
+		} else {
+			// right old public passphrase, wrong old PRIVATE one
+			s.ops = append(s.ops, fmt.Sprintf("chboth pubold=%d pubnew=%d privold=%d privnew=%d",
+				s.pub, s.pub, s.otherThan(nPrivPass, s.priv), vn))
+		}
+		s.probes()
+		if rng.Intn(2) == 0 {
+			s.add(fmt.Sprintf("newaddr sc=%s a=0", scopes[sc].name))
+		}
+		s.tags["passphrase"] = true
+	case 10: // C05: a successful change (single / combined): the new passphrase works, the old one fails
+		nw := 1 + rng.Intn(nPrivPass-1)
+		if rng.Intn(2) == 0 {
+			s.ops = append(s.ops, fmt.Sprintf("chpriv old=0 new=%d", nw))
+		} else {
+			pn := rng.Intn(nPubPass)
+			s.ops = append(s.ops, fmt.Sprintf("chboth pubold=0 pubnew=%d privold=0 privnew=%d", pn, nw))
+			s.pub = pn
+		}
+		s.priv = nw
+		s.probes()
+		s.ops = append(s.ops, "lock", "unlock pass=0", fmt.Sprintf("unlock pass=%d", nw))
+		s.locked = false
+		s.createTx(sc, 0, true, "small", false)
+		s.tags["passphrase"] = true
+	case 11: // C05/C08: dry-run import with a CONCURRENT AddressInfo of an uncached address of another account of the
+		// scope while the wallet is locked (after a restart, or after the address was marked used), then Unlock
+		name := scopes[sc].name
+		if rng.Intn(2) == 0 {
+			s.ops = append(s.ops, fmt.Sprintf("newaddr sc=%s a=0", name))
+			if rng.Intn(2) == 0 {
+				s.ops = append(s.ops, fmt.Sprintf("newchange sc=%s a=0", name))
+			}
+			s.ops = append(s.ops, "restart")
+		} else {
+			s.ops = append(s.ops, fmt.Sprintf("fund sc=%s a=0", name), "lock")
+			s.funded[[2]int{sc, 0}] = true
+			s.coins++
+		}
+		s.locked = true
+		key := 1 + rng.Intn(nImportKeys)
+		s.ops = append(s.ops, fmt.Sprintf("importdry sc=%s name=%d key=%d n=%d race=1 ra=100.0.0", name, s.freshName(), key, 1+rng.Intn(3)))
+		s.dryKey[sc][key] = true
+		s.tags["importdry-race"] = true
+		if rng.Intn(3) == 0 {
+			s.ops = append(s.ops, "passprobe")
+		}
+		s.add("unlock")
+		s.locked = false
 	case 5: // failing dry runs of every kind, then a new own account takes the number
 		s.importDry(sc, 1, "1", "1")                       // duplicate name
 		s.importDry(sc, s.freshName(), "bad", "1")         // refused xpub
@@ -363,20 +551,22 @@ func (s *shadow) scenario(k int) {
 	}
 }
 
+const nScenarios = 12
+
 func (engine) Generate(rng *rand.Rand, tier string) []core.Case {
-	nRandom, nScen := 150, 108
+	nRandom, nScen := 150, 144
 	if tier == "thorough" {
-		nRandom, nScen = 600, 300
+		nRandom, nScen = 600, 360
 	}
 	var cases []core.Case
 	for i := 0; i < nScen; i++ {
 		s := newShadow(rng, rng.Intn(5) < 2)
-		s.scenario(i % 9)
+		s.scenario(i % nScenarios)
 		for j := rng.Intn(6); j > 0 && !s.ended; j-- {
 			s.randomOp()
 		}
 		c := s.finish()
-		c.Tags = append(c.Tags, fmt.Sprintf("scenario-%d", i%9))
+		c.Tags = append(c.Tags, fmt.Sprintf("scenario-%d", i%nScenarios))
 		cases = append(cases, c)
 	}
 	for i := 0; i < nRandom; i++ {
@@ -394,11 +584,16 @@ func (engine) Generate(rng *rand.Rand, tier string) []core.Case {
 	}
 	// malformed stream
 	cases = append(cases, core.Case{Tags: []string{"malformed"}, Ops: []string{
-		"reset", "frobnicate", "newaddr sc=wpkh", "newaddr sc=xx a=0", "newaddr sc=wpkh a=x",
+		"reset pf=2", "newaddr sc=wpkh a=0", resetOp(), "frobnicate", "newaddr sc=wpkh", "newaddr sc=xx a=0", "newaddr sc=wpkh a=x",
 		"createtx sc=wpkh a=0 dry=2 amt=small nf=0", "createtx sc=wpkh a=0 dry=0 amt=mid nf=0", "createtx sc=wpkh a=0 dry=0 amt=small",
 		"fundpsbt sc=wpkh a=0 coin=x", "fundpsbt sc=wpkh a=0", "importdry sc=wpkh name=2 key=9 n=1", "importdry sc=wpkh name=2 key=1 n=99",
 		"importdry sc=wpkh name=2 key=1", "import sc=wpkh name=x key=1", "import sc=wpkh key=1", "rename sc=wpkh a=0", "rename sc=wpkh name=2",
 		"newacct sc=wpkh", "newacct name=3", "newaddr sc=wpkh a=0 cf=2", "cmp cf=x", "newaddr sc=wpkh a=0 cf=0", "cmp",
+		"unlock pass=4", "unlock pass=x", "chpriv old=0", "chpriv old=0 new=4", "chpub old=3 new=0", "chpub new=1",
+		"chboth pubold=0 pubnew=1 privold=0", "chboth pubold=0 pubnew=3 privold=0 privnew=1", "passprobe", "unlock pass=0",
+		"importdry sc=wpkh name=2 key=1 n=1 race=1", "importdry sc=wpkh name=2 key=1 n=1 race=1 ra=100.0", "importdry sc=wpkh name=2 key=1 n=1 race=2 ra=100.0.0",
+		"importdry sc=wpkh name=2 key=1 n=1 race=1 ra=5.0.0", "importdry sc=wpkh name=2 key=1 n=1 race=1 ra=100.2.0", "import sc=wpkh name=2 key=1 race=1 ra=100.0.0",
+		"importdry sc=wpkh name=2 key=1 n=1 race=1 ra=100.0.24", "importdry sc=wpkh name=2 key=1 n=1 race=0", "restart", "unlock",
 	}})
 	return cases
 }
@@ -425,7 +620,7 @@ func exhaustive() []core.Case {
 	var rec func(prefix []string, depth int)
 	rec = func(prefix []string, depth int) {
 		if depth > 0 {
-			ops := append([]string{"reset", "fund sc=wpkh a=0"}, prefix...)
+			ops := append([]string{resetOp(), "fund sc=wpkh a=0"}, prefix...)
 			ops = append(ops, "cmp")
 			cases = append(cases, core.Case{Ops: ops, Tags: []string{"exhaustive"}})
 		}
